@@ -187,7 +187,9 @@ public:
             return r;
         }
         Handle subscribe_lk(Handle h, const subscriber<T> *sub) {
-            auto r = subscribe_lk(sub, _regs[h]._pos);
+            //a suspended subscriber already stands on the position of the value it is waiting for
+            const subreg_t &src = _regs[h];
+            auto r = subscribe_lk(sub, src._awt?src._pos-1:src._pos);
             return r;
         }
 
